@@ -6,7 +6,7 @@ reamber/sm/SMMapSetMeta.py: _write_metadata on every run.
 
 What is proved: the slot arithmetic (`row_exact`, `row_error_lt_one`, `row_in_range`, `denMax_le_cap`,
 `den_dvd_denMax`), the measure bookkeeping (`padding_count`, `measure_at_index`), the `#BPMS` beat rounding
-(`round2_exact`), the `#SELECTABLE` line read back (`selectable_roundtrip`), a plain string header line read back
+(`round6_err`, `round6_exact`, `round6_grid48`, `round6_shift_within_row`), the `#SELECTABLE` line read back (`selectable_roundtrip`), a plain string header line read back
 (`string_line_roundtrip`).
 `write_read_exact_partial`: the full statement "denote (write ms) = ms" (same objects, columns, times) is NOT
 proved as one theorem: it is the composition of the pieces above with the timing kernel's offset→beat
@@ -14,6 +14,8 @@ round trip (`TimingMap.beats`, C10 `snaps_offsets_exact`, not available) and a t
 `scanRows (render measures) = measures`; the check evaluates that composition on every case (S).
 -/
 import Reamber.Lemmas.SMDefs
+import Reamber.Lemmas.Snapper
+import Mathlib.Tactic.NormNum
 import Reamber.Generated.SMTables
 import Mathlib.Tactic.Ring
 import Mathlib.Tactic.Linarith
@@ -191,21 +193,101 @@ example : AscFrom (-1) [0, 2, 5] := by simp [AscFrom]
 
 /-! ### header lines -/
 
-/-- `round(beat, 2)` is exact on multiples of 1/100 — in particular on whole beats and measure lines, so a tempo
-change on a measure line is written at exactly its beat. -/
-theorem round2_exact (n : Int) : round2 ((n : Rat) / 100) = (n : Rat) / 100 := by
-  unfold round2 roundHalfEven
-  have h : (n : Rat) / 100 * 100 = (n : Rat) := by ring
-  rw [h]
+/-- the core of Python's `round`: the result is within 1/2 of the argument -/
+theorem roundHalfEven_err (x : Rat) : |((roundHalfEven x : Int) : Rat) - x| ≤ 1 / 2 := by
+  have h1 : ((x.floor : Int) : Rat) ≤ x := Rat.floor_le x
+  have h2 : x < ((x.floor : Int) : Rat) + 1 := by
+    have := Rat.lt_floor_add_one x
+    push_cast at this
+    exact this
+  unfold roundHalfEven
+  simp only
+  split
+  · rename_i h
+    rw [abs_le]; constructor <;> linarith
+  · split
+    · rename_i h h'
+      rw [abs_le]; push_cast; constructor <;> linarith
+    · rename_i h h'
+      have hr : x - ((x.floor : Int) : Rat) = 1 / 2 := le_antisymm (not_lt.mp h') (not_lt.mp h)
+      split
+      · rw [abs_le]; constructor <;> linarith
+      · rw [abs_le]; push_cast; constructor <;> linarith
+
+/-- **`#BPMS` beat rounding (after D33)**: the written beat differs from the writer's beat by at most
+5·10⁻⁷ beat … -/
+theorem round6_err (q : Rat) : |round6 q - q| ≤ 1 / 2000000 := by
+  unfold round6 roundDec
+  have h := roundHalfEven_err (q * ((10 ^ 6 : Nat) : Rat))
+  have hp : (((10 ^ 6 : Nat) : Rat)) = 1000000 := by norm_num
+  rw [hp] at h ⊢
+  rw [abs_le] at h ⊢
+  constructor <;> linarith [h.1, h.2]
+
+/-- … is exact on multiples of 10⁻⁶ — in particular on whole beats, measure lines and every multiple of 1/16
+(`0.0625`), so those tempo changes are written at exactly their beat … -/
+theorem round6_exact (n : Int) : round6 ((n : Rat) / 1000000) = (n : Rat) / 1000000 := by
+  unfold round6 roundDec roundHalfEven
+  have hp : (((10 ^ 6 : Nat) : Rat)) = 1000000 := by norm_num
+  have h : (n : Rat) / 1000000 * 1000000 = (n : Rat) := by ring
+  rw [hp, h]
   simp [Rat.floor_intCast]
 
-example : round2 (1/8) = 3/25 ∧ round2 (3/8) = 19/50 ∧ round2 (1/16) = 3/50 ∧ round2 12 = 12 := by decide +kernel
+theorem round6_sixteenth (k : Int) : round6 ((k : Rat) / 16) = (k : Rat) / 16 := by
+  have : (k : Rat) / 16 = ((62500 * k : Int) : Rat) / 1000000 := by push_cast; ring
+  rw [this]; exact round6_exact _
 
-/-- **DSM3 (open finding)**: a tempo change on a 1/16 beat is written at a different beat (`0.0625 → 0.06`), and an
-object four beats later (in memory at 456.25 ms) is denoted by the written `#BPMS` at 454 ms — 2.25 ms off, more
-than 1/96 beat at the local tempo (600 bpm: 1.04 ms). -/
-theorem bpms_round_counterexample :
-    round2 (1/16) = 3/50 ∧
+/-- … and on the thirds of the 1/48-beat grid (`k/48`, 3 ∤ k) the error is at most (and then exactly) 1/3·10⁻⁶ beat. -/
+theorem round6_grid48 (k : Int) : |round6 ((k : Rat) / 48) - (k : Rat) / 48| ≤ 1 / 3000000 := by
+  obtain ⟨q, j, hj0, hj3, hm⟩ : ∃ q j : Int, 0 ≤ j ∧ j < 3 ∧ 62500 * k = 3 * q + j :=
+    ⟨62500 * k / 3, 62500 * k % 3, by omega, by omega, by omega⟩
+  have hj : j = 0 ∨ j = 1 ∨ j = 2 := by clear hm; omega
+  have hx : (k : Rat) / 48 * 1000000 = (q : Rat) + (j : Rat) / 3 := by
+    have : ((62500 * k : Int) : Rat) = ((3 * q + j : Int) : Rat) := by rw [hm]
+    push_cast at this
+    linarith
+  have hk : (k : Rat) / 48 = ((q : Rat) + (j : Rat) / 3) / 1000000 := by rw [← hx]; ring
+  have hfl : ((q : Rat) + (j : Rat) / 3).floor = q := by
+    apply floor_eq_of
+    · have : (0 : Rat) ≤ (j : Rat) := by exact_mod_cast hj0
+      linarith
+    · have : (j : Rat) < 3 := by exact_mod_cast hj3
+      linarith
+  have hR : round6 ((k : Rat) / 48) = ((roundHalfEven ((q : Rat) + (j : Rat) / 3) : Int) : Rat) / 1000000 := by
+    unfold round6 roundDec
+    have hp : (((10 ^ 6 : Nat) : Rat)) = 1000000 := by norm_num
+    rw [hp, hx]
+  have hval : roundHalfEven ((q : Rat) + (j : Rat) / 3) = if j = 2 then q + 1 else q := by
+    unfold roundHalfEven
+    simp only [hfl]
+    rcases hj with rfl | rfl | rfl <;> norm_num
+  rw [hR, hval, hk, abs_le]
+  rcases hj with rfl | rfl | rfl
+  · norm_num
+  · constructor <;> (push_cast; norm_num; linarith)
+  · constructor <;> (push_cast; norm_num; linarith)
+
+/-- **Does the rounding stay inside the 1/96-beat bound?**  A tempo change displaced by `δ` beats shifts every later
+object by `δ · (difference of the two beat lengths)` ms.  With `|δ| ≤ 1/3·10⁻⁶` (the 1/48 grid) this is at most 1/96
+beat at a local beat length `bl` exactly when the beat lengths differ by at most `31250 · bl` — i.e. for every tempo
+ratio below 1 : 31251; 2-decimal rounding (`|δ| ≤ 1/200`) only reached 1 : 3.08. -/
+theorem round6_shift_within_row (δ bla blb bl : Rat) (hδ : |δ| ≤ 1 / 3000000) (hr : |bla - blb| ≤ 31250 * bl) :
+    |δ * (bla - blb)| ≤ bl / 96 := by
+  rw [abs_mul]
+  have h1 : |δ| * |bla - blb| ≤ (1 / 3000000) * (31250 * bl) :=
+    mul_le_mul hδ hr (abs_nonneg _) (by norm_num)
+  have : (1 / 3000000 : Rat) * (31250 * bl) = bl / 96 := by ring
+  linarith
+
+example : round6 (1/48) = 20833/1000000 ∧ round6 (1/16) = 1/16 ∧ round6 (1/128) = 3906/500000 ∧ round6 12 = 12 := by
+  decide +kernel
+
+/-- **D33 (repaired): the 2-decimal variant.**  Had the beats been written with `round(beat, 2)` (as before the
+repair), a tempo change on a 1/16 beat would be written at `0.06`, and an object four beats later (in memory at
+456.25 ms) would be denoted at 454 ms — 2.25 ms off, more than 1/96 beat at the local tempo (600 bpm: 1.04 ms);
+with 6 decimals the same change is written exactly. -/
+theorem two_decimal_counterexample :
+    round2 (1/16) = 3/50 ∧ round6 (1/16) = 1/16 ∧
     timeOfBeat 0 [(0, 60), (1/16, 600)] 4 = 1825/4 ∧
     timeOfBeat 0 [(0, 60), (3/50, 600)] 4 = 454 ∧
     ((1825/4 : Rat) - 454 > (60000 / 600) / 96) := by decide +kernel
